@@ -12,7 +12,8 @@ LEVEL_TEXT = ("Static analysis of the type-checked MIR of /repo: every atomic op
               "Err into its cell; each application-facing operation (read, write, flush, shutdown, open, accept, datagram send/recv) "
               "and both data loaders must branch on the cell and build neither Poll::Pending nor Ok on its Err edge. Necessary structural conditions on all paths; promptness and idle-timeout timing are "
               "not decided.")
-NOT_DECIDED = ["promptness of completion after close (scheduling)", "idle-timeout timing ('not before')",
+NOT_DECIDED = ["promptness of completion after close (scheduling)", "idle-timeout timing ('not before'; only the zero-means-absent "
+               "rule of the negotiation is decided, R6)",
                "that a sleeper parked before the failure is woken (C16-W4 decides the wake-up fan-out; here only that an operation "
                "polled after the poison write sees the error)"]
 
@@ -148,6 +149,8 @@ def run(ctx):
                    "Components field that has a poisoning method")
     ctx.rule("R5", "every application-facing stream / datagram operation and both data-emitting loaders inspect the poisonable cell, and "
                    "on its Err state leave with an error: no Poll::Pending and no Ok(..) is produced on the Err edge")
+    ctx.rule("R6", "idle-timeout negotiation: a max_idle_timeout of zero means 'absent', so the minimum of the two endpoints' values is "
+                   "taken only on paths where each of them has been tested non-zero (RFC 9000 §10.1)")
     ctx.rule("R4", "each poisoning method stores Err into its cell (or delegates to poisoning methods) on the path where the cell was Ok")
 
     # ---------------------------------------------------------------- R1
@@ -351,6 +354,59 @@ def run(ctx):
                        "inspection by %s; on the Err edge: Poll::Pending built at %s, Ok(..) built at %s, Err/`?` at %s — an operation that "
                        "parks or succeeds on a poisoned cell blocks forever (nobody will wake it again) or keeps accepting/emitting "
                        "data after the connection failed" % (x["how"], pend, oks, errs + fr))
+    # ---------------------------------------------------------------- R6
+    ng = ctx.anchor("R6", "qbase::time::IdleConfig::negotiate_max_idle_timeout")
+    if ng:
+        def root(pl):
+            """canonical origin of a place: through tuple packing and copies down to a field of self or a parameter"""
+            for _ in range(6):
+                if len(pl) >= 2 and isinstance(pl[1], str) and re.match(r"^\.\d+$", pl[1].split(":")[0]):
+                    k = int(pl[1].split(":")[0][1:])
+                    aggs = [rv for (bb, jj, rv) in ng.defs_of(pl[0]) if jj != "term" and rv[0] == "agg" and rv[1]["k"] == "tuple"]
+                    if len(aggs) == 1 and k < len(aggs[0][2]):
+                        q = op_place(aggs[0][2][k])
+                        if q is not None:
+                            pl = q
+                            continue
+                if len(pl) == 1:
+                    ogs = ng.trace_local(pl[0])
+                    if len(ogs) == 1 and ogs[0][0] == "place":
+                        pl = ogs[0][1]
+                        continue
+                    if len(ogs) == 1 and ogs[0][0] == "arg":
+                        return "arg:%d" % ogs[0][1]
+                break
+            f = [x for x in place_fields(pl) if not x.isdigit()]
+            return ("field:" + f[0]) if f else ("local:%d" % pl[0])
+        mins = [(i, t) for i, t in ng.calls() if re.search(r"cmp::Ord::min$|Ord>::min$|cmp::min$", callee(t)) and len(t["args"]) == 2]
+        ctx.floor("R6", "min() calls in negotiate_max_idle_timeout", len(mins), 1)
+        # zero tests: (root, blocks entered when the value IS zero)
+        ztests = []
+        for (i, j, p, rv, line) in ng.assigns():
+            if rv[0] == "bin" and rv[1] == "Eq" and len(p) == 1:
+                for a, b_ in ((rv[2], rv[3]), (rv[3], rv[2])):
+                    srcs = [og[1] for og in local_origins(ng, a) if og[0] == "place"] + ([op_place(a)] if op_place(a) and len(op_place(a)) > 1 else [])
+                    for q in srcs:
+                        if "nanos" in place_fields(q) or "secs" in place_fields(q):
+                            for (sbk, neg) in bool_switches(ng, p[0]):
+                                tr, fa = switch_edges_on_local(ng, sbk)
+                                ztests.append((root(q[:2] if len(q) > 2 else q), set(fa if neg else tr)))
+        for i, t in ng.calls():
+            nm = callee(t)
+            if re.search(r"Duration::is_zero$", nm) and t["args"] and len(t["dest"]) == 1:
+                q = op_place(t["args"][0])
+                for (sbk, neg) in bool_switches(ng, t["dest"][0]):
+                    tr, fa = switch_edges_on_local(ng, sbk)
+                    ztests.append((root(q), set(fa if neg else tr)))
+        for (mi, mt) in mins:
+            for k, a in enumerate(mt["args"]):
+                q = op_place(a)
+                r_ = root(q) if q is not None else "const"
+                ok = any(zr == r_ and zedge and mi not in ng.reachable_from(list(zedge)) for (zr, zedge) in ztests)
+                ctx.ob("R6", "%s|min() operand %d (%s) was tested non-zero" % (ng.short, k, r_), ok, ng.where(mt["line"]),
+                       "zero tests found on: %s; one whose zero outcome cannot reach this min(): %s — min(0, x) = 0 turns 'this endpoint "
+                       "advertises no idle timeout' into 'idle timeout disabled', so an idle connection is never closed although the peer "
+                       "asked for a limit" % (sorted(set(z for z, _ in ztests)), ok))
     ctx.assume("tokio::sync::SetOnce::set fails (does not overwrite) when already set")
 
 
